@@ -29,6 +29,7 @@ type c03Case struct {
 	KillPM   int        `json:"kill_pm"`            // kill point as parts-per-10000 of the dry-run call count
 	KillAt   int        `json:"kill_at,omitempty"`  // explicit kill index (enumeration); overrides KillPM
 	Second   int        `json:"second,omitempty"`   // optional second kill (parts-per-10000 of the restarted session), 0 = none
+	Down     []lsw.Op   `json:"down,omitempty"`     // application activity while litestream is dead (between the kill and the restart)
 }
 
 func genC03(t *rapid.T) c03Case {
@@ -43,6 +44,20 @@ func genC03(t *rapid.T) c03Case {
 	c.KillPM = rapid.IntRange(300, 9999).Draw(t, "killPM")
 	if rapid.IntRange(0, 4).Draw(t, "secondKill") == 0 {
 		c.Second = rapid.IntRange(1, 9999).Draw(t, "second")
+	}
+	// the application keeps running while litestream is dead: commits, and checkpoints that nothing holds back now
+	if rapid.IntRange(0, 9).Draw(t, "downtime") < 6 {
+		for i, n := 0, rapid.IntRange(1, 5).Draw(t, "downOps"); i < n; i++ {
+			switch rapid.IntRange(0, 5).Draw(t, "downKind") {
+			case 0, 1:
+				c.Down = append(c.Down, lsw.Op{K: "insert", T: 0, N: rapid.SampledFrom([]int{1, 3, 12}).Draw(t, "n"), S: rapid.IntRange(0, 2).Draw(t, "size")})
+			case 2, 3:
+				a := rapid.IntRange(0, 100).Draw(t, "a")
+				c.Down = append(c.Down, lsw.Op{K: "update", T: 0, A: a, B: rapid.IntRange(a, 100).Draw(t, "b")})
+			default:
+				c.Down = append(c.Down, lsw.Op{K: "appckpt", M: rapid.SampledFrom([]string{"PASSIVE", "FULL", "RESTART", "TRUNCATE"}).Draw(t, "downMode")})
+			}
+		}
 	}
 	return c
 }
@@ -222,6 +237,17 @@ func runC03(c c03Case, killAt int, secondPM int, res *core.Result) (*core.Violat
 		}
 	}
 	res.Evals++
+	// ---- downtime: the application carries on while litestream is not running
+	if len(c.Down) > 0 {
+		salt0 := w.Obs.WALRestarts
+		for _, o := range c.Down {
+			w.AppStep(o)
+		}
+		res.Labels = append(res.Labels, "app-activity-during-downtime")
+		if w.Obs.WALRestarts > salt0 {
+			res.Labels = append(res.Labels, "wal-restarted-during-downtime")
+		}
+	}
 	// ---- restart: no manual intervention, the first acknowledged sync restores exactly the source
 	s2kill := 0
 	if secondPM > 0 && n > 0 {
